@@ -354,6 +354,13 @@ func writerCase(out *bufio.Writer, k Kind, always, rep bool, field int32, vals [
 			}
 		}()
 		buf := make([]byte, len(prefix), len(prefix)+3) // tight capacity: forces growth
+		if (len(prefix)+int(field)+len(vals))%2 == 1 {
+			// a recycled buffer with room to spare, full of what an earlier use left behind: nothing of it may show
+			buf = make([]byte, len(prefix), len(prefix)+4096)
+			for i, full := 0, buf[:cap(buf)]; i < len(full); i++ {
+				full[i] = 0xA5
+			}
+		}
 		copy(buf, prefix)
 		enc := picobuf.NewEncoderBuffer(buf[:cap(buf)])
 		// NewEncoderBuffer truncates to length 0; write the prefix through the API
